@@ -352,5 +352,232 @@ theorem timeout_only_from_timer' (c : Cfg) (s : HState) (e : Ev) (rid : Nat)
     rw [step_eq] at h
     exact absurd h (this rid)
 
+/-! ## Walk R: the retry counter of an active request never exceeds `request_retries` -/
+
+def RB (c : Cfg) (st : St) : Prop := ∀ call ∈ st.1.active, call.retries ≤ c.requestRetries
+
+/-- A primitive that leaves `active` alone keeps `RB`. -/
+theorem R_frame {α} {c : Cfg} {m : M α} (h : ∀ st, (m.run st).2.1.active = st.1.active) :
+    Ho (RB c) m (fun _ => RB c) := ⟨fun st hp => by unfold RB; rw [h st]; exact hp⟩
+
+theorem R_modS {c : Cfg} (f : HState → HState) (h : ∀ s, (f s).active = s.active) :
+    Ho (RB c) (modS f) (fun _ => RB c) := R_frame (fun st => h st.1)
+theorem R_emit {c : Cfg} (o) : Ho (RB c) (emit o) (fun _ => RB c) := R_frame (fun _ => rfl)
+theorem R_send {c : Cfg} (na p) : Ho (RB c) (send na p) (fun _ => RB c) := R_frame (fun _ => rfl)
+theorem R_freshNonce (c : Cfg) : Ho (RB c) (freshNonce c) (fun _ => RB c) := R_frame (fun _ => rfl)
+theorem R_freshCd (c : Cfg) : Ho (RB c) (freshCd c) (fun _ => RB c) := R_frame (fun _ => rfl)
+theorem R_freshEph (c : Cfg) : Ho (RB c) (freshEph c) (fun _ => RB c) := R_frame (fun _ => rfl)
+theorem R_freshRid (c : Cfg) : Ho (RB c) (freshRid c) (fun _ => RB c) := R_frame (fun _ => rfl)
+theorem R_addExpected {c : Cfg} (a) : Ho (RB c) (addExpected a) (fun _ => RB c) :=
+  R_modS _ (fun s => by by_cases h : s.exempt.any (·.1 == a) <;> simp [h])
+theorem R_removeExpected {c : Cfg} (a) : Ho (RB c) (removeExpected a) (fun _ => RB c) := R_modS _ (fun _ => rfl)
+theorem R_sessPut {c : Cfg} (na s) : Ho (RB c) (sessPut na s) (fun _ => RB c) := R_modS _ (fun _ => rfl)
+theorem R_sessInsert {c : Cfg} (na s) : Ho (RB c) (sessInsert c na s) (fun _ => RB c) := R_modS _ (fun _ => rfl)
+theorem R_sessRemove {c : Cfg} (na) : Ho (RB c) (sessRemove na) (fun _ => RB c) := R_modS _ (fun _ => rfl)
+theorem R_sessGetMut {c : Cfg} (na) : Ho (RB c) (sessGetMut c na) (fun _ => RB c) :=
+  sessGetMut_elim (fun _ hp => ⟨fun _ => hp, fun _ _ _ _ => ⟨fun _ => hp, fun _ => hp⟩⟩)
+theorem R_removeExpiredSessions {c : Cfg} : Ho (RB c) (removeExpiredSessions c) (fun _ => RB c) :=
+  removeExpiredSessions_elim (fun _ hp _ _ _ => hp)
+theorem R_encryptMessage {c : Cfg} (s m) : Ho (RB c) (encryptMessage c s m) (fun _ => RB c) := R_frame (fun _ => rfl)
+
+theorem R_activeInsert {c : Cfg} (call : Call) (h : call.retries ≤ c.requestRetries) :
+    Ho (RB c) (activeInsert c call) (fun _ => RB c) := by
+  refine Ho.modS _ (fun st hp x hx => ?_)
+  simp only [List.mem_append, List.mem_singleton] at hx
+  rcases hx with hx | hx
+  · exact hp x hx
+  · subst hx; exact h
+
+theorem RB_erase {c : Cfg} {st : St} (hp : RB c st) (call : Call) :
+    RB c ({ st.1 with active := st.1.active.erase call }, st.2) :=
+  fun x hx => hp x (List.mem_of_mem_erase hx)
+
+theorem R_activeRemoveByNonce {c : Cfg} (n) : Ho (RB c) (activeRemoveByNonce n)
+    (fun r st => RB c st ∧ ∀ call, r = some call → call.retries ≤ c.requestRetries) :=
+  activeRemoveByNonce_elim (fun _ hp => ⟨fun _ => ⟨hp, fun _ h => by cases h⟩,
+    fun call hf => ⟨RB_erase hp call, fun x hx => by
+      cases hx; exact hp _ (List.mem_of_find?_eq_some hf)⟩⟩)
+theorem R_activeRemoveRequest {c : Cfg} (na rid) : Ho (RB c) (activeRemoveRequest na rid)
+    (fun r st => RB c st ∧ ∀ call, r = some call → call.retries ≤ c.requestRetries) :=
+  activeRemoveRequest_elim (fun _ hp => ⟨fun _ => ⟨hp, fun _ h => by cases h⟩,
+    fun call hf => ⟨RB_erase hp call, fun x hx => by
+      cases hx; exact hp _ (List.mem_of_find?_eq_some hf)⟩⟩)
+theorem R_activeRemoveRequests {c : Cfg} (na) : Ho (RB c) (activeRemoveRequests na) (fun _ => RB c) :=
+  ⟨fun st hp x hx => hp x (List.mem_filter.1 hx).1⟩
+
+
+theorem R_setS_pinned {c : Cfg} {s0 : HState} (s' : HState) (h : s'.active = s0.active) :
+    Ho (Pin s0 (RB c)) (setS s') (fun _ => RB c) :=
+  Ho.setS _ (fun st hp => by unfold RB; rw [h, ← hp.1]; exact hp.2)
+theorem R_replayUpd {c : Cfg} (oldNonce : Nat) (p : Pkt) : Ho (RB c) (modS fun s =>
+        let upd : Call → Call := fun call =>
+          if call.pkt.nonce == oldNonce then
+            { call with pkt := p, deadline := s.now + c.requestTimeout, tseq := s.tctr }
+          else call
+        { s with active := s.active.map upd, tctr := s.tctr + 1 }) (fun _ => RB c) := by
+  refine Ho.modS _ (fun st hp x hx => ?_)
+  simp only [List.mem_map] at hx
+  obtain ⟨y, hy, rfl⟩ := hx
+  split
+  · exact hp y hy
+  · exact hp y hy
+
+syntax "r_leaf" : tactic
+macro_rules | `(tactic| r_leaf) => `(tactic| first
+  | with_reducible exact R_emit _ | with_reducible exact R_send _ _ | with_reducible exact R_freshNonce _
+  | with_reducible exact R_freshCd _ | with_reducible exact R_freshEph _
+  | with_reducible exact R_freshRid _ | with_reducible exact R_addExpected _
+  | with_reducible exact R_removeExpected _ | with_reducible exact R_sessPut _ _
+  | with_reducible exact R_sessInsert _ _ | with_reducible exact R_sessRemove _
+  | with_reducible exact R_sessGetMut _ | with_reducible exact R_removeExpiredSessions
+  | with_reducible exact R_encryptMessage _ _ | with_reducible exact R_activeRemoveRequests _
+  | with_reducible exact R_setS_pinned _ rfl
+  | exact R_replayUpd _ _
+  | with_reducible apply R_activeInsert
+  | exact R_modS _ (fun s => by first | rfl | (dsimp only; split <;> rfl)))
+macro_rules | `(tactic| ho_leaf) => `(tactic| r_leaf)
+
+theorem R_isAwaitingSession {c : Cfg} (na) : Ho (RB c) (isAwaitingSession c na) (fun _ => RB c) := by
+  unfold isAwaitingSession; ho_walk
+macro_rules | `(tactic| r_leaf) => `(tactic| with_reducible exact R_isAwaitingSession _)
+theorem R_sendRequest {c : Cfg} (hr : 1 ≤ c.requestRetries) (ct rid i b) :
+    Ho (RB c) (sendRequest c ct rid i b) (fun _ => RB c) := by
+  unfold sendRequest; ho_walk
+  all_goals exact hr
+macro_rules | `(tactic| r_leaf) => `(tactic| with_reducible exact R_sendRequest (by assumption) _ _ _ _)
+theorem R_sendPendingRequests {c : Cfg} (hr : 1 ≤ c.requestRetries) (na) :
+    Ho (RB c) (sendPendingRequests c na) (fun _ => RB c) := by
+  unfold sendPendingRequests; ho_walk
+theorem R_failSession {c : Cfg} (na e b) : Ho (RB c) (failSession c na e b) (fun _ => RB c) := by
+  unfold failSession; ho_walk
+macro_rules | `(tactic| r_leaf) => `(tactic| with_reducible first
+  | exact R_sendPendingRequests (by assumption) _ | exact R_failSession _ _ _)
+theorem R_failRequest {c : Cfg} (call e b) : Ho (RB c) (failRequest c call e b) (fun _ => RB c) := by
+  unfold failRequest; ho_walk
+macro_rules | `(tactic| r_leaf) => `(tactic| with_reducible exact R_failRequest _ _ _)
+theorem R_handleRequestTimeout {c : Cfg} (call : Call) (h : call.retries ≤ c.requestRetries) :
+    Ho (RB c) (handleRequestTimeout c call) (fun _ => RB c) := by
+  unfold handleRequestTimeout; ho_walk
+  simp only; omega
+theorem R_reencryptAll {c : Cfg} (l s acc) : Ho (RB c) (reencryptAll c l s acc) (fun _ => RB c) := by
+  induction l generalizing s acc with
+  | nil => unfold reencryptAll; ho_walk
+  | cons x xs ih => unfold reencryptAll; ho_walk; exact ih _ _
+macro_rules | `(tactic| r_leaf) => `(tactic| with_reducible exact R_reencryptAll _ _ _)
+theorem R_replayActiveRequests {c : Cfg} (na sk) : Ho (RB c) (replayActiveRequests c na sk) (fun _ => RB c) := by
+  unfold replayActiveRequests; ho_walk
+macro_rules | `(tactic| r_leaf) => `(tactic| with_reducible exact R_replayActiveRequests _ _)
+theorem R_newSession {c : Cfg} (hr : 1 ≤ c.requestRetries) (na s sk) : Ho (RB c) (newSession c na s sk) (fun _ => RB c) := by
+  unfold newSession; ho_walk
+theorem R_sendChallenge {c : Cfg} (na n k) : Ho (RB c) (sendChallenge c na n k) (fun _ => RB c) := by
+  unfold sendChallenge; ho_walk
+macro_rules | `(tactic| r_leaf) => `(tactic| with_reducible first
+  | exact R_newSession (by assumption) _ _ _ | exact R_sendChallenge _ _ _)
+theorem R_handleChallenge {c : Cfg} (hr : 1 ≤ c.requestRetries) (src n cd es) :
+    Ho (RB c) (handleChallenge c src n cd es) (fun _ => RB c) := by
+  unfold handleChallenge
+  refine Ho.bind (R_activeRemoveByNonce n) (fun r => Ho.pre_pure' (fun hc => ?_))
+  ho_walk
+  all_goals (have := hc _ rfl; exact this)
+theorem R_handleResponse {c : Cfg} (na rid rb) : Ho (RB c) (handleResponse c na rid rb) (fun _ => RB c) := by
+  unfold handleResponse
+  refine Ho.bind (R_activeRemoveRequest na rid) (fun r => Ho.pre_pure' (fun hc => ?_))
+  ho_walk
+  all_goals (have := hc _ rfl; exact this)
+macro_rules | `(tactic| r_leaf) => `(tactic| with_reducible first
+  | exact R_handleChallenge (by assumption) _ _ _ _ | exact R_handleResponse _ _ _
+  | exact (R_activeRemoveRequest _ _).post (fun _ _ h => h.1))
+theorem R_handleMessage {c : Cfg} (na n ct) : Ho (RB c) (handleMessage c na n ct) (fun _ => RB c) := by
+  unfold handleMessage; ho_walk
+macro_rules | `(tactic| r_leaf) => `(tactic| with_reducible exact R_handleMessage _ _ _)
+theorem R_handleAuthMessage {c : Cfg} (hr : 1 ≤ c.requestRetries) (na n sig eph r ct) :
+    Ho (RB c) (handleAuthMessage c na n sig eph r ct) (fun _ => RB c) := by
+  unfold handleAuthMessage; ho_walk
+theorem foldl_pick_mem {α} (f : Option α → α → Option α) (hf : ∀ m x, f m x = some x ∨ f m x = m)
+    (l : List α) (init : Option α) (r : α) (h : l.foldl f init = some r) :
+    init = some r ∨ r ∈ l := by
+  induction l generalizing init with
+  | nil => exact Or.inl h
+  | cons x xs ih =>
+    rw [List.foldl_cons] at h
+    rcases ih _ h with h1 | h1
+    · rcases hf init x with h2 | h2
+      · rw [h2] at h1; cases h1; exact Or.inr (List.mem_cons_self ..)
+      · rw [h2] at h1; exact Or.inl h1
+    · exact Or.inr (List.mem_cons_of_mem _ h1)
+
+theorem nextDue_inl_mem (s : HState) (t d : Nat) (call : Call)
+    (h : nextDue s t = some (d, .inl call)) : call ∈ s.active := by
+  unfold nextDue at h
+  simp only at h
+  have key : ∀ r, List.foldl (fun (m : Option Call) call => match m with
+      | none => some call
+      | some b => if (decide (call.deadline < b.deadline) || call.deadline == b.deadline && decide (call.tseq < b.tseq)) = true
+          then some call else some b) none (List.filter (fun x => decide (x.deadline ≤ t)) s.active) = some r →
+      r ∈ s.active := by
+    intro r hr
+    rcases foldl_pick_mem _ (by
+      intro m x; cases m with
+      | none => exact Or.inl rfl
+      | some b => dsimp only; split
+                  · exact Or.inl rfl
+                  · exact Or.inr rfl) _ _ _ hr with h1 | h1
+    · cases h1
+    · exact (List.mem_filter.1 h1).1
+  split at h
+  · rename_i r ch hr hc
+    split at h
+    · cases h
+    · cases h; exact key _ hr
+  · rename_i r hr hc
+    cases h; exact key _ hr
+  · cases h
+  · cases h
+
+macro_rules | `(tactic| r_leaf) => `(tactic| with_reducible first
+  | exact R_handleAuthMessage (by assumption) _ _ _ _ _ _ | exact R_handleRequestTimeout _ (by assumption))
+theorem R_fireTimers {c : Cfg} (hr : 1 ≤ c.requestRetries) (target fuel : Nat) :
+    Ho (RB c) (fireTimers c target fuel) (fun _ => RB c) := by
+  induction fuel with
+  | zero => unfold fireTimers; exact Ho.pureI _
+  | succ n ih =>
+    unfold fireTimers
+    refine Ho.getS_pin (fun s0 => ?_)
+    split
+    · ho_walk
+    · rename_i d call hnd
+      have hm := nextDue_inl_mem _ _ _ _ hnd
+      refine Ho.bind (Q := fun _ st => RB c st ∧ call.retries ≤ c.requestRetries)
+        (Ho.setS _ (fun st hp => ⟨fun x hx => hp.2 x (hp.1 ▸ List.mem_of_mem_erase hx), hp.2 _ (hp.1 ▸ hm)⟩))
+        (fun _ => Ho.pre_pure' (fun hc => ?_))
+      ho_walk
+      exact ih
+    · ho_walk
+      exact ih
+macro_rules | `(tactic| r_leaf) => `(tactic| with_reducible exact R_fireTimers (by assumption) _ _)
+theorem R_stepM {c : Cfg} (hr : 1 ≤ c.requestRetries) (e : Ev) : Ho (RB c) (stepM c e) (fun _ => RB c) := by
+  cases e with
+  | dgram src p => simp only [stepM]; ho_walk
+  | _ => simp only [stepM]; ho_walk
+
+theorem snoc_induction {α} {P : List α → Prop} (h0 : P []) (h1 : ∀ l x, P l → P (l ++ [x])) :
+    ∀ l, P l := by
+  intro l
+  rw [← List.reverse_reverse l]
+  induction l.reverse with
+  | nil => exact h0
+  | cons x xs ih => rw [List.reverse_cons]; exact h1 _ _ ih
+
+theorem run_snoc (c : Cfg) (evs : List Ev) (e : Ev) : run c (evs ++ [e]) = (step c (run c evs) e).1 := by
+  simp [run, List.foldl_append]
+
+theorem retries_bounded' (c : Cfg) (evs : List Ev) (hr : 1 ≤ c.requestRetries) :
+    ∀ call ∈ (run c evs).active, call.retries ≤ c.requestRetries := by
+  induction evs using snoc_induction with
+  | h0 => intro call h; cases h
+  | h1 evs e ih =>
+    rw [run_snoc, step_eq]
+    exact (R_stepM hr e).out (run c evs, []) ih
+
 end Discv5.H
 
